@@ -333,12 +333,15 @@ fn run_shard<P: Property>(p: &P, tier: Tier, seed: u64, shard: u32, cases: u32) 
     let mut runner = TestRunner::new(cfg);
     let strat = p.strategy(tier);
     let slot = watch_register(p.id(), p.hang_is_violation());
+    crash::register_thread(p.id(), &verif_root().join("replays").join(p.id()).join(format!("crash-shard{}.json", shard)));
     let index = std::cell::Cell::new(0u64);
     let result = runner.run(&strat, |case| {
         let counting = first_fail.borrow().is_none();
         let enc = serde_json::to_string(&case).unwrap_or_default();
         *slot.current.lock().unwrap() = Some((Instant::now(), enc.clone()));
+        crash::set_case(&enc);
         let rep = guarded(|| p.check(&case, &mut ctx.borrow_mut()));
+        crash::clear_case();
         *slot.current.lock().unwrap() = None;
         let rep = match rep {
             Ok(r) => r,
@@ -419,6 +422,7 @@ fn run_shard<P: Property>(p: &P, tier: Tier, seed: u64, shard: u32, cases: u32) 
 pub fn run_campaign<P: Property>(p: &P, tier: Tier, seed: u64) -> RunOutcome {
     let t0 = Instant::now();
     start_watchdog();
+    crash::install();
     let cases = p.cases_per_shard(tier);
     let mut results: Vec<(Stats, Option<(Value, Failure)>)> = Vec::new();
     std::thread::scope(|sc| {
@@ -467,7 +471,12 @@ pub fn replay_case<P: Property>(p: &P, case_json: &Value, tier: Tier, strict: bo
         strict,
         tier,
     };
+    crash::install();
+    crash::register_thread(p.id(), &verif_root().join("replays").join(p.id()).join("crash-replay.json"));
+    let enc = serde_json::to_string(case_json).unwrap_or_default();
+    crash::set_case(&enc);
     let r = guarded(|| p.check(&case, &mut ctx));
+    crash::clear_case();
     let _ = std::fs::remove_dir_all(&ctx.dir);
     match r {
         Ok(rep) => Ok(rep),
@@ -520,4 +529,115 @@ pub fn evidence_json<P: Property>(p: &P, tier: Tier, seed: u64, out: &RunOutcome
         "wall_s": out.wall_s,
         "violations": violations,
     })
+}
+
+// ------------------------------------------------------------------------------------------
+// crash capture: SIGSEGV / SIGBUS / SIGILL / SIGABRT raised while a case runs (misaligned or
+// out-of-bounds access, non-unwinding panic, abort) would otherwise kill the check without a
+// verdict. The handler writes the case that the faulting thread was running to a replay file
+// with async-signal-safe calls only, prints the VIOLATION line and exits with status 1.
+
+pub mod crash {
+    use std::cell::Cell;
+    use std::sync::atomic::{AtomicPtr, AtomicUsize, Ordering};
+
+    const SLOTS: usize = 64;
+    static CASE_PTR: [AtomicPtr<u8>; SLOTS] = [const { AtomicPtr::new(std::ptr::null_mut()) }; SLOTS];
+    static CASE_LEN: [AtomicUsize; SLOTS] = [const { AtomicUsize::new(0) }; SLOTS];
+    static PATH_PTR: [AtomicPtr<u8>; SLOTS] = [const { AtomicPtr::new(std::ptr::null_mut()) }; SLOTS];
+    static PROP_PTR: AtomicPtr<u8> = AtomicPtr::new(std::ptr::null_mut());
+    static PROP_LEN: AtomicUsize = AtomicUsize::new(0);
+    static NEXT: AtomicUsize = AtomicUsize::new(0);
+
+    thread_local! {
+        static MY_SLOT: Cell<usize> = const { Cell::new(usize::MAX) };
+    }
+
+    /// Reserve a slot for the calling thread; `path` is where a crash of this thread is written.
+    pub fn register_thread(prop: &str, path: &std::path::Path) {
+        let slot = NEXT.fetch_add(1, Ordering::SeqCst) % SLOTS;
+        MY_SLOT.with(|s| s.set(slot));
+        if let Some(d) = path.parent() {
+            let _ = std::fs::create_dir_all(d);
+        }
+        let c = std::ffi::CString::new(path.to_string_lossy().as_bytes()).unwrap();
+        PATH_PTR[slot].store(c.into_raw() as *mut u8, Ordering::SeqCst);
+        if PROP_PTR.load(Ordering::SeqCst).is_null() {
+            let b = prop.as_bytes().to_vec().leak();
+            PROP_LEN.store(b.len(), Ordering::SeqCst);
+            PROP_PTR.store(b.as_mut_ptr(), Ordering::SeqCst);
+        }
+    }
+
+    /// Publish the JSON encoding of the case about to run on this thread (must stay alive until `clear`).
+    pub fn set_case(json: &str) {
+        let slot = MY_SLOT.with(|s| s.get());
+        if slot != usize::MAX {
+            CASE_LEN[slot].store(json.len(), Ordering::SeqCst);
+            CASE_PTR[slot].store(json.as_ptr() as *mut u8, Ordering::SeqCst);
+        }
+    }
+
+    pub fn clear_case() {
+        let slot = MY_SLOT.with(|s| s.get());
+        if slot != usize::MAX {
+            CASE_PTR[slot].store(std::ptr::null_mut(), Ordering::SeqCst);
+            CASE_LEN[slot].store(0, Ordering::SeqCst);
+        }
+    }
+
+    unsafe fn wr(fd: i32, b: &[u8]) {
+        let mut off = 0;
+        while off < b.len() {
+            let n = libc::write(fd, b.as_ptr().add(off) as *const libc::c_void, b.len() - off);
+            if n <= 0 {
+                break;
+            }
+            off += n as usize;
+        }
+    }
+
+    extern "C" fn handler(sig: i32) {
+        unsafe {
+            let slot = MY_SLOT.try_with(|s| s.get()).unwrap_or(usize::MAX);
+            let prop = std::slice::from_raw_parts(PROP_PTR.load(Ordering::SeqCst), PROP_LEN.load(Ordering::SeqCst));
+            if slot != usize::MAX && !CASE_PTR[slot].load(Ordering::SeqCst).is_null() {
+                let case = std::slice::from_raw_parts(CASE_PTR[slot].load(Ordering::SeqCst), CASE_LEN[slot].load(Ordering::SeqCst));
+                let path = PATH_PTR[slot].load(Ordering::SeqCst) as *const libc::c_char;
+                let fd = libc::open(path, libc::O_WRONLY | libc::O_CREAT | libc::O_TRUNC, 0o644);
+                if fd >= 0 {
+                    wr(fd, b"{\"property\": \"");
+                    wr(fd, prop);
+                    wr(fd, b"\", \"clause\": \"crash-signal\", \"detail\": \"the process received a fatal signal (SIGSEGV/SIGBUS/SIGILL/SIGABRT) while running this case\", \"case\": ");
+                    wr(fd, case);
+                    wr(fd, b"}\n");
+                    libc::close(fd);
+                }
+                wr(1, b"FAIL clause=crash-signal detail=fatal signal ");
+                let d = [b'0' + (sig / 10) as u8, b'0' + (sig % 10) as u8];
+                wr(1, &d);
+                wr(1, b" while running a case\nVIOLATION property=");
+                wr(1, prop);
+                wr(1, b" replay=");
+                wr(1, std::ffi::CStr::from_ptr(path).to_bytes());
+                wr(1, b"\n");
+                libc::_exit(1);
+            }
+            // not inside a case: harness problem, inconclusive
+            wr(1, b"INCONCLUSIVE: fatal signal outside of a case\n");
+            libc::_exit(2);
+        }
+    }
+
+    pub fn install() {
+        unsafe {
+            for sig in [libc::SIGSEGV, libc::SIGBUS, libc::SIGILL, libc::SIGABRT] {
+                let mut sa: libc::sigaction = std::mem::zeroed();
+                sa.sa_sigaction = handler as usize;
+                sa.sa_flags = libc::SA_ONSTACK;
+                libc::sigemptyset(&mut sa.sa_mask);
+                libc::sigaction(sig, &sa, std::ptr::null_mut());
+            }
+        }
+    }
 }
